@@ -87,8 +87,8 @@ def run(ctx):
     stores = {fld: field_stores(ctx, pause, PS, fld) for fld in PS_FIELDS}
     # writes dominated by the guard (except the daily reset, which precedes it by design and is checked separately)
     for fld in ("pause_flags", "pause_start_timestamp", "consecutive_pause_count"):
-        for bi, s, pv in stores[fld]:
-            ctx.inst("C15.R3", "pause/write-after-guard/%s@%d" % (fld, s["sp"][1] if "sp" in s else 0), bool(gsw) and A.set_dominates(pause, gsw, bi), "the write to %s is dominated by the can_pause guard" % fld, "", pause.bloc(bi))
+        for n_, (bi, s, pv) in enumerate(stores[fld]):
+            ctx.inst("C15.R3", "pause/write-after-guard/%s#%d" % (fld, n_ + 1), bool(gsw) and A.set_dominates(pause, gsw, bi), "the write to %s is dominated by the can_pause guard" % fld, "", pause.bloc(bi))
     inc = [x for x in stores["daily_pause_count"] if x[2].has_field(PS, "daily_pause_count")]
     rst = [x for x in stores["daily_pause_count"] if not x[2].has_field(PS, "daily_pause_count")]
     for bi, s, pv in inc:
